@@ -32,7 +32,7 @@ RE_PUSH = re.compile(r"PUSH")
 RE_PUSH_LITERAL = re.compile(r"PUSH_LITERAL")
 RE_RANGE_OP = re.compile(r"\.\.")
 RE_RULE_DOC = re.compile(r"///")
-RE_TAG = re.compile(r"#[_a-zA-z][_a-zA-Z0-9]+(?=\s*=)")
+RE_TAG = re.compile(r"#[_a-zA-Z][_a-zA-Z0-9]*")
 RE_WHITESPACE = re.compile(r"[ \t\n\r]+")
 RE_CHAR = re.compile(
     r"'\\[\\\"\r\n\t\0']'|'\\x[0-9a-fA-F]{2}'|'\\u\{[0-9a-fA-F]{2,6}\}'|'.'"
@@ -223,10 +223,12 @@ class Scanner:
 
     def accept_term(self) -> None:
         if value := self.scan(RE_TAG):
-            # Assumes RE_TAG is using a lookahead assertion for "=".
             self.emit(TokenKind.TAG, value)
             self.skip_trivia()
-            self.emit(TokenKind.ASSIGN_OP, self.next())
+            if self.peek() == "=":
+                self.emit(TokenKind.ASSIGN_OP, self.next())
+            else:
+                self.error("expected the assignment operator")
             self.skip_trivia()
 
         if self.peek() == "&":
